@@ -42,6 +42,12 @@ pub fn eval_request(st: &mut State, req: &str) -> Option<Obs> {
         ["msg", which, s, d1, d2] => {
             Some(msgs::msg_obs(which, s.parse().ok()?, d1.parse().ok()?, d2.parse().ok()?))
         }
+        ["rawx", s, d1, d2] => Some(msgs::rawx_obs(s.parse().ok()?, d1.parse().ok()?, d2.parse().ok()?)),
+        ["rawxblk", s] => {
+            let mut o = Obs::new();
+            o.0.push(msgs::rawxblk_digest(s.parse().ok()?) as i64);
+            Some(o)
+        }
         ["blk", mask, which, s] => {
             let mut o = Obs::new();
             o.0.push(msgs::blk_digest(mask, which, s.parse().ok()?) as i64);
@@ -66,13 +72,14 @@ pub fn eval_request(st: &mut State, req: &str) -> Option<Obs> {
         ["ord", t, a, b] => nums::ord_obs(t.parse().ok()?, a.parse().ok()?, b.parse().ok()?),
         ["consts", t] => nums::consts_obs(t.parse().ok()?),
         ["cnconst", i] => nums::cnconst_obs(i.parse().ok()?),
+        ["tu2", fun, x, y, z] => ctors::tu2_obs(fun, x.parse().ok()?, y.parse().ok()?, z.parse().ok()?),
         ["tu", fun, x, y, z] => ctors::tu_obs(fun, x.parse().ok()?, y.parse().ok()?, z.parse().ok()?),
         _ => None,
     }
 }
 
 fn show_cells(req: &str, o: &Obs) -> String {
-    if req.starts_with("blk ") || req.starts_with("mkblk ") || req.starts_with("genblk ") {
+    if req.starts_with("blk ") || req.starts_with("mkblk ") || req.starts_with("genblk ") || req.starts_with("rawxblk ") {
         // digests are printed as unsigned 64-bit numbers
         format!("{}", o.0[0] as u64)
     } else {
@@ -166,6 +173,9 @@ fn main() {
                 ["blk", _mask, which, s] => {
                     for d1 in 0..128 { for d2 in 0..128 { out.req(&format!("msg {} {} {} {}", which, s, d1, d2)); } }
                 }
+                ["rawxblk", s] => {
+                    for d1 in 0..128 { for d2 in 0..128 { out.req(&format!("rawx {} {} {}", s, d1, d2)); } }
+                }
                 ["mkblk", which, k, a] => {
                     let a: u32 = a.parse().unwrap();
                     let (nb, nc) = ctors::blk_ranges(k, a);
@@ -195,8 +205,21 @@ fn main() {
                     out.req(&format!("blk {} {} {}", mask, which, s));
                 }
             }
+            if mask == "c01" || mask == "all" {
+                // the two conversions that exist for RawShortMessage only: TryFrom<(u8,U7,U7)> and Into<(u8,U7,U7)>
+                for s in 0..=255u8 { out.req(&format!("rawxblk {}", s)); }
+            }
             out.stat("evaluations", 4 * 256 * 128 * 128);
             out.stat("nontrivial", 4 * 128 * 128 * 128);
+        }
+        // every valid message of one implementation, line by line (thorough tier)
+        "msg-all-lines" => {
+            let which = &args[2];
+            let mut n = 0u64;
+            for s in 128..=255u8 { for d1 in 0..128u8 { for d2 in 0..128u8 {
+                out.req(&format!("msg {} {} {} {}", which, s, d1, d2)); n += 1;
+            } } }
+            out.stat("evaluations", n); out.stat("nontrivial", n);
         }
         // all 16384 lines of one block (to localise a digest mismatch)
         "msg-lines" => {
@@ -400,6 +423,15 @@ fn main() {
             }
             for x in 0..65536u32 { out.req(&format!("tu song_position_pointer {} 0 0", x)); n += 1; }
             for x in 0..256u32 { out.req(&format!("tu song_select {} 0 0", x)); n += 1; }
+            // helpers that return integers, 14-bit CC and (N)RPN messages
+            for f in ["u4", "u7", "channel", "key_number", "controller_number"] { for x in 0..256u32 { out.req(&format!("tu2 {} {} 0 0", f, x)); n += 1; } }
+            for x in 0..65536u32 { out.req(&format!("tu2 u14 {} 0 0", x)); n += 1; }
+            for x in [0u32, 15, 16, 255] { for y in 0..256u32 { for z in [0u32, 16383, 16384, 65535] {
+                out.req(&format!("tu2 control_change_14_bit {} {} {}", x, y, z)); n += 1; } } }
+            for f in ["nrpn", "rpn"] { for x in [0u32, 15, 16] { for y in [0u32, 16383, 16384, 65535] { for z in 0..256u32 {
+                out.req(&format!("tu2 {} {} {} {}", f, x, y, z)); n += 1; } } } }
+            for f in ["nrpn_14_bit", "rpn_14_bit"] { for x in [0u32, 15, 16] { for y in [0u32, 16383, 16384] { for z in (0..65536u32).step_by(127).chain([16383, 16384]) {
+                out.req(&format!("tu2 {} {} {} {}", f, x, y, z)); n += 1; } } } }
             out.stat("evaluations", n);
             out.stat("nontrivial", n);
         }
